@@ -371,7 +371,14 @@ func (p *Parser) parseOperation(tokens []tokenizer.Token, validateOnly bool) (se
 	}
 	if negated && err == nil {
 		if !validateOnly {
-			sel = &NotNode{sel}
+			if inner, ok := sel.(*NotNode); ok {
+				// Negation of a parenthesised negation, e.g. "!(!x)".  Collapse it just as
+				// we collapse "!!x" above; otherwise the canonical form "!!x" would parse
+				// back to "x", giving the same selector two canonical forms and IDs.
+				sel = inner.Operand
+			} else {
+				sel = &NotNode{sel}
+			}
 		}
 	}
 	return
